@@ -667,6 +667,14 @@ func checkQueues(queue *QueueConfig, level int) error {
 		return err
 	}
 
+	// the resources of the child template must be parsable: the queue cannot be created otherwise
+	if _, err = resources.NewResourceFromConf(queue.ChildTemplate.Resources.Max); err != nil {
+		return fmt.Errorf("child template of queue %s: invalid max resource: %w", queue.Name, err)
+	}
+	if _, err = resources.NewResourceFromConf(queue.ChildTemplate.Resources.Guaranteed); err != nil {
+		return fmt.Errorf("child template of queue %s: invalid guaranteed resource: %w", queue.Name, err)
+	}
+
 	// check this level for name compliance and uniqueness
 	queueMap := make(map[string]bool)
 	for _, child := range queue.Queues {
